@@ -12,14 +12,17 @@ ID = "C09"
 LEVEL = "fault_enumeration"
 SHARDS = 48
 RULE = ("seeded runs; scenarios: S0 plant a prefix D[:k] of a real index document (user cache "
-        "dir / adjacent / both; k in {0,1,2,|D|-1,|D|} + structural boundaries + random; thorough: "
-        "multi-byte character cuts; EVERY k in 0..|D| for one level-1.1 and one level-1.5 product, sharded over the first "
-        "%d runs), S1 kill of the create_cache / CLI writer at byte k (or at close) of the n-th "
+        "dir / adjacent / both; k in {0,1,2,|D|-1,|D|} + structural boundaries + multi-byte "
+        "character cuts + random; thorough: EVERY k in 0..|D| for one level-1.1 and one "
+        "level-1.5 product, sharded over the first %d runs), S1 kill of the create_cache / CLI writer at byte k (or at close) of the n-th "
         "file it writes or just before its n-th disk-mutating operation (mkdir / open / every "
         "write chunk / close / rename / unlink / fsync), S2 ENOSPC at byte k or at such an "
         "operation, S3 writer paused at byte k while a default open "
-        "runs, S4 two interleaved writers (+reader) at write-chunk granularity under the seeded "
-        "scheduler; after the faults: default open == uncached reference, create_cache=True "
+        "runs, S4 two or three interleaved writers (option / tool, also the tool run for several "
+        "images of one ScanSAR product at once) (+readers) at write-chunk granularity under the "
+        "seeded scheduler, S4b ALL interleavings of those writers at protocol-step granularity "
+        "(mkdir / open / close / rename / unlink; depth-first, capped at 48 quick / 400 thorough "
+        "schedules per run); after the faults: default open == uncached reference, create_cache=True "
         "succeeds, next default open == reference and reads no image records. Each planted prefix "
         "/ fault is one evaluation; distinct key = (scenario, location/writer, k-class, "
         "level, schedule digest for S3/S4)" % (2 * SHARDS))
@@ -95,7 +98,23 @@ def generate(rng, tier, index):
     plan["writers"] = ["option", rng.choice(["option", "option", "cli"] if local else ["option"])]
     if rng.random() < 0.3:
         plan["writers"].append("option")
+    if local and rng.random() < 0.4:
+        # the tool run for several images at the same time (one process per image); half of the
+        # time on a ScanSAR product whose files are the scans of one polarisation
+        plan["writers"] = ["cli"] * rng.choice([2, 2, 3])
+        if rng.random() < 0.5:
+            wp2 = world.gen_world_plan(rng, backends=(wp["backend"],), max_images=3, max_lines=10,
+                                       max_pixels=6, large=0.0, huge=0.0, level="1.1",
+                                       n_images=rng.choice([2, 3]), one_pol_scans=True)
+            plan["world"] = wp = wp2
+    if rng.random() < 0.5:
+        # instead of one seeded schedule at write-chunk granularity: ALL interleavings of the
+        # writers at protocol-step granularity (open / close / rename / unlink / mkdir ...)
+        plan["s4_mode"] = "boundaries"
+        plan["cap"] = 48 if tier == "quick" else 400
     plan["cli_image"] = rng.randrange(len(wp["images"]))
+    plan["cli_images"] = [(plan["cli_image"] + i) % len(wp["images"])
+                          for i in range(len(plan["writers"]))]
     plan["readers"] = rng.choice([0, 1, 1, 2])
     plan["chunk"] = rng.choice([1, 7, 64, 512, 1000, 4096, 8192])
     return plan
@@ -434,16 +453,75 @@ def _sched_problems(c, s, scen):
     return False
 
 
+BOUNDARY_KINDS = {"open-w", "close-w", "replace", "rename", "unlink", "remove", "mkdir", "rmdir",
+                  "fsync", "link", "symlink", "truncate"}
+
+
+def run_s4_boundaries(c, ref):
+    """every interleaving of the writers' protocol steps (depth-first over the scheduler's choice
+    tree, capped); after each one the cache must not poison a default open, and creation repairs"""
+    plan = c.plan
+    cli_images = plan.get("cli_images") or [plan.get("cli_image")] * len(plan["writers"])
+    stack = [list(plan["schedule"])] if plan.get("schedule") is not None else [[]]
+    cap = 1 if plan.get("schedule") is not None else plan.get("cap", 48)
+    j = 0
+    bad_schedule = None
+    import hashlib
+
+    pick = random.Random(plan.get("sched_seed", 0))
+    while stack and j < cap:
+        # when the cap cuts the search short: alternately the latest deviation (one late switch is
+        # what most races need) and a seeded random one (spread over the tree)
+        prefix = stack.pop() if j % 2 == 0 else stack.pop(pick.randrange(len(stack)))
+        _clear(c)
+        s = Sched(script=prefix, max_steps=400000)
+        s.only_kinds = BOUNDARY_KINDS
+        names = []
+        for i, kind in enumerate(plan["writers"]):
+            nm = "W%d" % i
+            names.append(nm)
+            s.spawn(nm, lambda kind=kind, img=cli_images[i]: _writer(c, kind, img))
+        s.run(wall_timeout=240)
+        dec = s.decisions
+        for i in range(len(prefix), len(dec)):
+            runnable, chosen = dec[i]
+            for alt in runnable:
+                if alt != chosen:
+                    stack.append([d[1] for d in dec[:i]] + [alt])
+        j += 1
+        c.evaluations += 1
+        c.bump("s4-boundary-schedules")
+        order = hashlib.sha256(",".join(s.trace).encode()).hexdigest()[:10]
+        c.keys.append(f"S4b|{'+'.join(plan['writers'])}|{c.prod.level}|{c.kind}|{order}")
+        n_before = len(c.violations)
+        if _sched_problems(c, s, "S4b"):
+            pass
+        else:
+            for nm in names:
+                if nm in s.err:
+                    c.bump("concurrent-writer-raised:" + type(s.err[nm]).__name__)
+            if c.default_open_ok(ref, "S4b:after", writers=plan["writers"]) and (j <= 8 or j % 4 == 0):
+                c.repair_ok(ref, "S4b:after", writers=plan["writers"])
+        if len(c.violations) > n_before and bad_schedule is None:
+            bad_schedule = list(s.trace)
+    c.bump("s4-boundary-complete" if not stack else "s4-boundary-capped")
+    if bad_schedule is not None:
+        return {"schedule": bad_schedule}
+
+
 def run_s4(c, ref):
     plan = c.plan
+    if plan.get("s4_mode") == "boundaries":
+        return run_s4_boundaries(c, ref)
     rng = random.Random(plan["sched_seed"])
     SIM.write_chunk = plan["chunk"]
     s = Sched(rng=rng, script=plan.get("schedule"), switch_p=plan["switch_p"], max_steps=400000)
     names = []
+    cli_images = plan.get("cli_images") or [plan.get("cli_image")] * len(plan["writers"])
     for i, kind in enumerate(plan["writers"]):
         nm = "W%d" % i
         names.append(nm)
-        s.spawn(nm, lambda kind=kind: _writer(c, kind, plan.get("cli_image")))
+        s.spawn(nm, lambda kind=kind, img=cli_images[i]: _writer(c, kind, img))
     reader_results = {}
     for i in range(plan["readers"]):
         nm = "R%d" % i
